@@ -136,8 +136,11 @@ def _gen_cases(tier, seed):
         n = int(rng.integers(1, 6))
         allp = list(partitions(n))
         parts = allp[int(rng.integers(len(allp)))]
-        yield dict(i=i, kind="ragged", fmt=fmt, cell=cell, time=time, parts=parts, pos=int(rng.integers(0, len(parts) + 1)),
-                   bad=bads[(j // len(STREAM)) % len(bads)])
+        c = dict(i=i, kind="ragged", fmt=fmt, cell=cell, time=time, parts=parts, pos=int(rng.integers(0, len(parts) + 1)),
+                 bad=bads[(j // len(STREAM)) % len(bads)])
+        if fmt == "h5" and c["pos"] > 0 and rng.random() < 0.5:
+            c["reopen"] = True
+        yield c
         i += 1
     # crash points: k <= 5 writes x 3 chunk patterns x cell; the kill point rotates with the seed
     pats = {"ones": [1, 1, 1, 1, 1], "grow": [1, 2, 3, 1, 2], "big": [4, 1, 3, 2, 1]}
@@ -475,6 +478,11 @@ def _ragged(case, ctx, d):
         p0 = 0
         for k, p in enumerate(parts + [0]):
             if k == pos:
+                if case.get("reopen"):
+                    # the invalid write is the FIRST write of a new session appending to the file (h5 mode 'a')
+                    fh.close()
+                    fh = open_w(path, fmt, good_frames.topology, mode="a")
+                    ctx.observe("ragged_session", "first write after reopening in append mode")
                 try:
                     do_write(fh, fmt, bt, bcell, btime, model0=90)
                 except Exception as e:
@@ -525,12 +533,25 @@ def _ragged(case, ctx, d):
         ctx.violation("ragged.refused", f"{fmt}:{bad}:atom-count-change-accepted",
                       f"{fmt}: a write with {bt.n_atoms} atoms into a file of {NA}-atom frames was accepted "
                       f"(file then {'loads with %d frames' % got.n_frames if got is not None else 'does not load'})", parts=parts, pos=pos)
+    elif consistent and bad == "cell-toggle" and bcell and not _stored_cell(got, sum(parts[:pos]), bt):
+        # the write ADDED cell information to a file whose earlier frames have none, was accepted, and the information is
+        # not in the file: neither refused nor stored
+        ctx.violation("ragged.refused", f"{fmt}:{bad}:added-cell-accepted-but-silently-dropped",
+                      f"{fmt}: a write that adds a unit cell (position {pos} of {parts}, earlier frames without) was accepted, but the "
+                      f"file loads {'without any cell' if got.unitcell_lengths is None else 'with another cell for that frame'}")
     elif not consistent:
         ctx.violation("ragged.refused", f"{fmt}:{bad}:ragged-write-accepted-file-inconsistent",
                       f"{fmt}: a {bad} write at position {pos} of {parts} was accepted and the file is now "
                       f"{'unloadable' if got is None else 'holding %d frames instead of %d' % (got.n_frames, n + 1)}")
     else:
         ctx.skip("ragged.refused", f"{fmt}: {bad} write accepted and file stays consistent (format stores a default for every frame)")
+
+
+def _stored_cell(got, k, bt):
+    if got.unitcell_lengths is None or k >= got.n_frames:
+        return False
+    return bool(np.allclose(got.unitcell_lengths[k], bt.unitcell_lengths[0], rtol=1e-3, atol=1e-3)
+                and np.allclose(got.unitcell_angles[k], bt.unitcell_angles[0], atol=1e-2))
 
 
 CHILD = r"""
